@@ -582,7 +582,7 @@ def r13_lex_errors_reported(c, facts, rule='C13.R13'):
     c.floor(R, 'switches on the lexer result', len(err_edges), 1)
     late = False
     for e in err_edges:
-        reach = tk.reachable_from(e, avoid=pushes)
+        reach = P.reachable_tracking_variants(tk, e, avoid=pushes)
         if nb in reach or any(tk.mir['blocks'][x]['term']['t'] == 'return' for x in reach):
             late = True
     if late:
